@@ -293,6 +293,11 @@ def _run_node(case, ex):
     body = BODIES[case["body"]]
     kw = dict(iter_on=tuple(case["iter"]), zip_on=tuple(case["zip"]), output_as_dataframe=case["df"],
               output_column_map=_colmap(case), use_cache=case["cache"])
+    if case.get("bare_str"):
+        # a single looped input may be named by a bare string instead of a 1-tuple
+        for k in ("iter_on", "zip_on"):
+            if len(kw[k]) == 1:
+                kw[k] = kw[k][0]
     try:
         node = body.for_node(**kw) if case.get("entry") == "cls" else for_node(body, **kw)
     except Exception as e:   # noqa: BLE001
@@ -779,6 +784,8 @@ def _gen_node(rng, p_exec):
     it, zp, colmap = _gen_layout(rng, b)
     case = {"kind": "node", "body": b, "iter": it, "zip": zp, "df": rng.random() < 0.5, "colmap": colmap,
             "cache": rng.random() < 0.8, "entry": rng.choice(["for_node", "for_node", "cls"])}
+    if (len(it) == 1 or len(zp) == 1) and rng.random() < 0.3:
+        case["bare_str"] = True
     while True:
         case["steps"] = _gen_steps(rng, b, it, zp, rng.choice([1, 2, 2, 3, 3, 4]))
         if _max_rows(case) <= 36:
